@@ -5,6 +5,8 @@ import Fuota.Lemmas.V1Monad
 import Fuota.Lemmas.V1Same
 import Fuota.Lemmas.V1Naive
 import Fuota.Lemmas.V1NaiveStart
+import Fuota.Lemmas.V1OrigStart
+import Fuota.Props.C10
 /-!
 # C19 — the single-erasure (V1) updaters repair only what parity determines
 
@@ -35,7 +37,11 @@ FULL at flash level for the naive model (`Lemmas/V1Slot.lean`, `V1View.lean`, `V
 `naive_start_establishes` (start_update establishes the session invariant `NInv`), `naive_handle_segment_refines`
 (`handle_segment` on genuine fragments = `Abs.deliver`, never an error), `complete_iff_peel` /
 `complete_iff_peel_session` (completion is reported exactly when peeling recovers everything).
-`naive_eq_orig_model_partial`: naive side flash-level, original side still mask-level.
+`naive_eq_orig_model_partial`: naive side flash-level, original side still mask-level (kept).
+FULL for the original crate as well (`Lemmas/V1OrigSlot.lean`, `V1Orig.lean`, `V1OrigStart.lean`):
+`orig_start_establishes`, `orig_handle_segment_refines`, and **`naive_eq_orig`** — both flash-level models, fed the same
+genuine fragments, report completion at the same deliveries and end with the same data-region contents.
+Non-vacuity: the two `example`s at the end build concrete states satisfying `OInv` / `NInv`.
 
 `_partial` = proved for the mask-level machine `Fuota.V1.Abs`; the missing hypothesis is the flash-level refinement
 "after the programs of a delivery, `loadStatus` reads the masks of `Abs.deliver`" (a program of `DATA_WRITTEN` at
@@ -582,7 +588,196 @@ theorem complete_iff_peel_session (cfg : Naive.Cfg) (hc : cfg.clampParity = true
     idxs j hall hj1 hj2
   exact ⟨u0, d0, outs, u1, d1, out, u2, d2, hrun0, h1, h2, h4⟩
 
+/-! ## the original crate's model refines the mask-level machine; both models side by side -/
+
+open Fuota.Nor
+
+theorem present_same {a b : Abs} (h : Same a b) (i : Nat) : present a i = present b i := by
+  obtain ⟨h1, _, h3, h4⟩ := h
+  unfold present
+  rw [h1, h3, h4]
+
+theorem read_erased (f : Flash) (a len : Nat) (h : FlashAdapters.Erased f a (a + len)) :
+    f.read a len = List.replicate len 0xFF := by
+  apply List.ext_getElem
+  · simp [Flash.read]
+  · intro j h1 h2
+    simp only [Flash.read, List.getElem_map, List.getElem_range, List.getElem_replicate]
+    exact h _ (by omega) (by simp [Flash.read] at h1; omega)
+
+/-- both models, fed the same genuine fragments, step by step -/
+theorem both_run {ncfg : Naive.Cfg} {ocfg : Orig.Cfg} {cap : Nat} {D : Nat → List Nat} {seg : Nat} (a0 b0 : Abs)
+    (h0n : b0.n = a0.n) (h0r : b0.rowOf = a0.rowOf) :
+    ∀ (idxs : List Nat) (u : Naive.Upd) (d : Dev) (a : Abs) (ac : Orig.Act) (e : Dev) (b : Abs),
+    NInv ncfg u d a D seg → OInv ocfg ac e b cap D seg → a.step = none → b.step = none → Same a b → Bnd a b →
+    a.n = a0.n → a.parLen = a0.parLen → a.rowOf = a0.rowOf →
+    (∀ i ∈ idxs, 1 ≤ i ∧ i ≤ a0.n + a0.parLen ∧ i ≤ a0.n + cap) →
+    ∃ outs u' d' cs ac' e',
+      (deliverAll ncfg a0 D seg idxs).run (u, d) = (.ok outs, (u', d')) ∧
+      (oDeliverAll ocfg b0 D seg idxs).run (ac, e) = (.ok cs, (ac', e')) ∧
+      outs.map (fun o => decide (o = Naive.Outcome.complete)) = cs ∧
+      NInv ncfg u' d' (a.run (idxs.map (toDlv a0.n))) D seg ∧
+      OInv ocfg ac' e' (b.run (idxs.map (toDlv a0.n))) cap D seg ∧
+      Same (a.run (idxs.map (toDlv a0.n))) (b.run (idxs.map (toDlv a0.n))) := by
+  intro idxs
+  induction idxs with
+  | nil =>
+    intro u d a ac e b I J _ _ hs _ _ _ _ _
+    exact ⟨[], u, d, [], ac, e, rfl, rfl, rfl, I, J, hs⟩
+  | cons i is ih =>
+    intro u d a ac e b I J hca hcb hs hb hn hp hr hall
+    obtain ⟨h1, h2, h3⟩ := hall i (by simp)
+    have hbn : b.n = a0.n := by rw [← hs.1]; exact hn
+    have hbr : b.rowOf = a0.rowOf := by rw [← hs.2.1]; exact hr
+    obtain ⟨o, u1, d1, hrun1, I1, hca1, hiff1⟩ := handleSegment_run I hca i h1 (by rw [hn, hp]; exact h2)
+    obtain ⟨w, rep, c, ac1, e1, hrun2, J1, hcb1, hiff2⟩ := oHandleSegment_run J hcb i h1 (by rw [hbn]; exact h3)
+    rw [genuine_congr a0 a D seg i hn hr] at hrun1
+    rw [genuine_congr b0 b D seg i (by rw [hbn, h0n]) (by rw [hbr, h0r])] at hrun2
+    rw [hn] at I1 hca1 hiff1
+    rw [hbn] at J1 hcb1 hiff2
+    -- the delivery keeps the two abstract states equal
+    have hcod : ∀ q, toDlv a0.n i = .coded q → q < a.parLen ∧ q < b.parLen := by
+      intro q hq
+      unfold toDlv at hq
+      split at hq
+      · cases hq
+      · cases hq
+        have := J.plen
+        have := J.geo.cap_le
+        omega
+    obtain ⟨hs1, hb1⟩ := deliver_same hs hb (toDlv a0.n i) hcod
+    obtain ⟨e1', e2', e3'⟩ := deliver_fields a (toDlv a0.n i)
+    obtain ⟨outs, u', d', cs, ac', e', hr1, hr2, hf, I', J', hs'⟩ := ih u1 d1 _ ac1 e1 _ I1 J1 hca1 hcb1 hs1 hb1
+      (by rw [e1', hn]) (by rw [e2', hp]) (by rw [e3', hr]) (fun j hj => hall j (by simp [hj]))
+    refine ⟨o :: outs, u', d', c :: cs, ac', e', ?_, ?_, ?_, I', J', hs'⟩
+    · unfold deliverAll
+      simp only [NaiveRun.run_bind, hrun1, hr1, NaiveRun.run_pure]
+    · unfold oDeliverAll
+      simp only [OrigRun.run_bind, hrun2, hr2, OrigRun.run_pure]
+    · have hoc : (o = Naive.Outcome.complete) ↔ c = true := by
+        rw [hiff1, hiff2, present_same hs, hs1.2.2.1]
+      have : decide (o = Naive.Outcome.complete) = c := by
+        cases c
+        · have : ¬ o = Naive.Outcome.complete := fun h => by have := hoc.1 h; cases this
+          simp [this]
+        · simp [hoc.2 rfl]
+      simp only [List.map_cons, this, hf]
+
+/-- **naive_eq_orig** (both sides flash-level models, full).  A fresh naive session (`NInv`, empty masks) and a fresh
+    original-crate session (`OInv`, empty masks) for the same image `D` (`n` fragments of `seg` bytes, same
+    `force-full-r` setting), each on its own device without armed injection.  Feed both the same genuine fragments
+    `idxs` (any order, duplicates; coded indices inside both the naive scan `a.parLen` and the original parity slot
+    `cap`).  Then every call of either model succeeds, the two report completion at exactly the same deliveries
+    (`cs` = the original crate's completeness flags = "the naive outcome is `FirmwareComplete`", position by position),
+    and afterwards every data fragment reads the same bytes in the two firmware slots. -/
+theorem naive_eq_orig (ncfg : Naive.Cfg) (ocfg : Orig.Cfg) (hffr : ocfg.ffr = ncfg.ffr)
+    (u : Naive.Upd) (d : Dev) (a : Abs) (ac : Orig.Act) (e : Dev) (b : Abs) (cap : Nat) (D : Nat → List Nat) (seg : Nat)
+    (I : NInv ncfg u d a D seg) (J : OInv ocfg ac e b cap D seg)
+    (ha1 : a.fw = 0) (ha2 : a.par = 0) (hb1 : b.fw = 0) (hb2 : b.par = 0) (hn : b.n = a.n)
+    (idxs : List Nat) (hall : ∀ i ∈ idxs, 1 ≤ i ∧ i ≤ a.n + a.parLen ∧ i ≤ a.n + cap) :
+    ∃ outs u' d' cs ac' e',
+      (deliverAll ncfg a D seg idxs).run (u, d) = (.ok outs, (u', d')) ∧
+      (oDeliverAll ocfg b D seg idxs).run (ac, e) = (.ok cs, (ac', e')) ∧
+      (∀ i ∈ idxs, genuine b D seg i = genuine a D seg i) ∧
+      outs.map (fun o => decide (o = Naive.Outcome.complete)) = cs ∧
+      (∀ i, i < a.n →
+        d'.flash.read (dAddr u'.fw seg i) seg = e'.flash.read (ac'.fwIdx * ac'.slotSize + 17408 + i * seg) seg) := by
+  have hrow : b.rowOf = a.rowOf := by
+    rw [I.rowEq, J.rowEq, hffr, hn]; rfl
+  have hca : a.step = none := step_none_of_nopar (fun p _ => by rw [ha2]; simp)
+  have hcb : b.step = none := step_none_of_nopar (fun p _ => by rw [hb2]; simp)
+  have hs : Same a b := ⟨hn.symm, hrow.symm, by rw [ha1, hb1], by rw [ha2, hb2]⟩
+  have hbd : Bnd a b := by intro p hp; rw [ha2] at hp; simp at hp
+  obtain ⟨outs, u', d', cs, ac', e', h1, h2, h3, I', J', hs'⟩ :=
+    both_run a b hn hrow idxs u d a ac e b I J hca hcb hs hbd rfl rfl rfl hall
+  refine ⟨outs, u', d', cs, ac', e', h1, h2, fun i _ => genuine_congr a b D seg i hn hrow, h3, ?_⟩
+  obtain ⟨e1, _, _, _⟩ := run_fields a (idxs.map (toDlv a.n))
+  obtain ⟨f1, _, _, _⟩ := run_fields b (idxs.map (toDlv a.n))
+  intro i hi
+  have hfw : (b.run (idxs.map (toDlv a.n))).fw = (a.run (idxs.map (toDlv a.n))).fw := hs'.2.2.1.symm
+  cases hbit : (a.run (idxs.map (toDlv a.n))).fw.testBit i with
+  | true =>
+    rw [I'.fwV.data i (by rw [e1]; exact hi) hbit, J'.fwV.data i (by rw [f1, hn]; exact hi) (by rw [hfw]; exact hbit)]
+  | false =>
+    rw [read_erased _ _ _ (I'.fwV.free i (by rw [e1]; exact hi) hbit),
+      read_erased _ _ _ (J'.fwV.free i (by rw [f1, hn]; exact hi) (by rw [hfw]; exact hbit))]
+
+/-- **`write_segment` + repair loop of the original crate refine the mask-level machine** (flash level; the analogue of
+    `naive_handle_segment_refines`): see `Fuota.V1.oHandleSegment_run`.  `cap` = number of coded fragments that fit
+    the parity slot; `c` = the completeness flag (`ActiveStatus::is_complete` after the call, false for a duplicate). -/
+theorem orig_handle_segment_refines {cfg : Orig.Cfg} {ac : Orig.Act} {d : Dev} {a : Abs} {cap : Nat}
+    {D : Nat → List Nat} {seg : Nat} (I : OInv cfg ac d a cap D seg) (hcl : a.step = none) (idx1 : Nat)
+    (h1 : 1 ≤ idx1) (hn : idx1 ≤ a.n + cap) :
+    ∃ w rep c ac' d', (Orig.handleSegment cfg idx1 (genuine a D seg idx1)).run (ac, d) = (.ok (w, rep, c), (ac', d')) ∧
+      OInv cfg ac' d' (a.deliver (toDlv a.n idx1)) cap D seg ∧ (a.deliver (toDlv a.n idx1)).step = none ∧
+      (c = true ↔ (present a idx1 = false ∧ ∀ i, i < a.n → (a.deliver (toDlv a.n idx1)).fw.testBit i = true)) :=
+  oHandleSegment_run I hcl idx1 h1 hn
+
+/-- **`start` of the original crate establishes `OInv`** on every consistent ring device: see
+    `Fuota.V1.orig_start_establishes` (`hrows` holds without `force-full-r`: `rows_std`). -/
+theorem orig_start_establishes (cfg : Orig.Cfg) (N S p k s0 : Nat) (H : Nat → Layout.Header) (sz n : Nat) (d : Dev)
+    (D : Nat → List Nat) (hN : 3 ≤ N) (hN6 : N ≤ 6) (hp : p < N) (hk : k ≤ N)
+    (hG : Good d) (hwf : FlashAdapters.WF d.flash) (hb0 : 0 < d.flash.block) (hdiv : S % d.flash.block = 0)
+    (hsz : N * S ≤ d.flash.size) (hring : Orig.hdrsOf d.flash S (List.range N) = Orig.ringIH N p k s0 H)
+    (hgeo : Orig.reasonablySized S sz n = .ok ())
+    (hrows : ∀ q, q < origCap S sz → (Lfdbt.getParityMatrixRowOrig cfg.ffr ((q + 1) % 2 ^ 32) n).isSome = true)
+    (hDl : ∀ i, i < n → (D i).length = sz) (hDb : ∀ i, i < n → Updater.IsBytes (D i)) :
+    ∃ act d', (Orig.start N S sz n).run d = (.ok act, d') ∧ OInv cfg act d' (origInit cfg n) (origCap S sz) D sz :=
+  V1.orig_start_establishes cfg N S p k s0 H sz n d D hN hN6 hp hk hG hwf hb0 hdiv hsz hring hgeo hrows hDl hDb
+
 /-! ## non-vacuity -/
+
+/-- a blank 4 x 18432-byte device with 6144-byte erase blocks -/
+def exDev : Dev := { flash := Flash.blank 6144 (4 * 18432) }
+/-- an image of three 256-byte fragments -/
+def exImage : Nat → List Nat := fun i => List.replicate 256 (i + 1)
+
+theorem exDev_good : Good exDev := ⟨rfl, rfl, rfl⟩
+theorem exDev_wf : FlashAdapters.WF exDev.flash := fun x => by
+  show (Flash.blank 6144 (4 * 18432)).byte x < 256
+  rw [C20.blank_byte]; decide
+theorem exDev_size : exDev.flash.size = 4 * 18432 := Array.size_replicate ..
+theorem exImage_len (i : Nat) : (exImage i).length = 256 := List.length_replicate ..
+theorem exImage_bytes (i : Nat) (hi : i < 3) : Updater.IsBytes (exImage i) := by
+  intro b hb
+  simp only [exImage, List.mem_replicate] at hb
+  omega
+
+/-- without `force-full-r` every parity index below 16384 has a row (C10): the `hrows` hypotheses of the establishing
+    theorems hold -/
+theorem rows_std (n q : Nat) (hn : n ≤ 16384) (hq : q < 16384) :
+    (Lfdbt.getParityMatrixRow false ((q + 1) % 2 ^ 32) n).isSome = true := by
+  rw [Nat.mod_eq_of_lt (by omega), C10.row_new_eq_spec hn (by omega) (by omega)]
+  rfl
+
+/-- **non-vacuity of `OInv`**: `start(256, 3)` on the blank example device yields a concrete state satisfying the
+    invariant of the original crate's session -/
+example : ∃ act d', (Orig.start 4 18432 256 3).run exDev = (.ok act, d') ∧
+    OInv {} act d' (origInit {} 3) (origCap 18432 256) exImage 256 := by
+  apply orig_start_establishes {} 4 18432 0 0 0 (fun _ => C11.sampleHeader) 256 3 exDev exImage (by omega) (by omega)
+    (by omega) (by omega) exDev_good exDev_wf (by show 0 < 6144; omega) (by show 18432 % 6144 = 0; rfl)
+    (by rw [exDev_size]; exact Nat.le_refl _)
+    (C20.blank_device_is_ring 6144 4 18432 0 0 _) rfl
+  · intro q hq
+    have hc : origCap 18432 256 = 4 := by decide
+    rw [hc] at hq
+    exact rows_std 3 q (by omega) (by omega)
+  · intro i _; exact exImage_len i
+  · exact exImage_bytes
+
+/-- **non-vacuity of `NInv`**: `start_update(256, 3)` of the naive back-end on the same device -/
+example : ∃ u d', (Naive.startUpdate { clampParity := true } 4 18432 256 3).run exDev = (.ok u, d') ∧
+    NInv { clampParity := true } u d' (naiveInit { clampParity := true } 18432 256 3) exImage 256 := by
+  apply V1.naive_start_establishes { clampParity := true } rfl 4 18432 256 3 exDev exImage exDev_good exDev_wf
+    (by rw [exDev_size]; exact Nat.le_refl _) (by show 0 < 6144; omega) (by show 18432 % 6144 = 0; rfl) (by omega)
+    (by omega) rfl
+  · intro q hq
+    have hc : Naive.parityCount { clampParity := true } 18432 256 = 4 := by decide
+    rw [hc] at hq
+    exact rows_std 3 q (by omega) (by omega)
+  · intro i _; exact exImage_len i
+  · exact exImage_bytes
+
 
 /-- a concrete 4-fragment image, the row `{0, 2}`: the repair of fragment 2 from fragment 0 and the coded fragment -/
 example : repaired (fun i => [i + 1, 2 * i]) (coded (fun i => [i + 1, 2 * i]) 0b0101 4 2) 0b0101 4 2 = [3, 4] := by
